@@ -5,6 +5,7 @@ package vf
 
 import (
 	"bytes"
+	"errors"
 	"fmt"
 	"io"
 	"os"
@@ -14,6 +15,8 @@ import (
 
 	"github.com/johnkerl/miller/v6/pkg/cli"
 	"github.com/johnkerl/miller/v6/pkg/climain"
+	"github.com/johnkerl/miller/v6/pkg/lib"
+	"github.com/johnkerl/miller/v6/pkg/mlrval"
 	"github.com/johnkerl/miller/v6/pkg/stream"
 	"github.com/johnkerl/miller/v6/pkg/verifrt"
 )
@@ -107,6 +110,8 @@ func RunMlr(args []string, o MlrOpts) (res MlrResult) {
 	runMu.Lock()
 	defer runMu.Unlock()
 	CaptureStderr()
+	mlrval.VerifResetGlobals()
+	os.Unsetenv("TZ")
 	verifrt.TrapExits(true)
 	verifrt.OpenHookFn = func(path string) (io.ReadCloser, error, bool) {
 		if s, ok := o.Files[path]; ok {
@@ -171,13 +176,14 @@ func RunMlr(args []string, o MlrOpts) (res MlrResult) {
 			res.Exit = 2
 		}
 	}
+	printErr := false
 	select {
 	case mr := <-done:
 		if mr.panic != nil {
 			classify(mr.panic, mr.stack)
 		} else if mr.err != nil {
 			res.Err = mr.err.Error()
-			res.Exit = exitCodeFor(mr.err)
+			res.Exit, printErr = exitCodeFor(mr.err)
 		}
 	case cp := <-childCh:
 		classify(cp.Value, string(cp.Stack))
@@ -185,7 +191,7 @@ func RunMlr(args []string, o MlrOpts) (res MlrResult) {
 	}
 	res.Stdout = buf.String()
 	res.Stderr = takeStderr()
-	if res.Err != "" && res.Exit != 0 {
+	if res.Err != "" && printErr {
 		// what entrypoint.exitOnError prints
 		msg := res.Err
 		if !strings.HasPrefix(msg, "mlr") {
@@ -196,12 +202,19 @@ func RunMlr(args []string, o MlrOpts) (res MlrResult) {
 	return res
 }
 
-func exitCodeFor(err error) int {
+// exitCodeFor mirrors entrypoint.exitOnError. The second result says whether
+// exitOnError would print the error text.
+func exitCodeFor(err error) (int, bool) {
+	var er *lib.ExitRequest
 	switch {
-	case err == cli.ErrHelpRequested:
-		return 0
+	case errors.Is(err, cli.ErrHelpRequested):
+		return 0, false
+	case errors.Is(err, cli.ErrUsagePrinted):
+		return 1, false
+	case errors.As(err, &er):
+		return er.Code, false
 	}
-	return 1
+	return 1, true
 }
 
 // Pipe-safe environment for in-process runs.
